@@ -619,6 +619,9 @@ func TestVerifReplay(t *testing.T) {
 	if strings.Contains(string(b), "maporder") {
 		tries = 6
 	}
+	if strings.HasPrefix(rf.Label, "no-data-race/") {
+		tries = 3 // whether the race detector sees the pair unordered depends on the native schedule
+	}
 	var out []byte
 	for k := 0; k < tries; k++ {
 		args := []string{"test", "-vet=off", "-count=1", "-run", "^TestVerifReplay$", "-overlay", ovp}
